@@ -375,6 +375,9 @@ def same(a, b):
     return a == b or (a != a and b != b)
 
 
+LAST_DIGITS = 8 * 2.0 ** -52          # correspondence: deviations up to 8 ulp of the tensor's magnitude are counted, not reported
+
+
 # ------------------------------------------------------------------ reference values (oracle side)
 def ref_eigs(row, lam=None):
     """ascending eigenvalues, not via eigvalsh: the constructing values, or the general solver"""
@@ -944,8 +947,17 @@ class C17(Prop):
                 p = [core.h2f(x) for x in b.split()]
             except Exception:
                 return f"line {i}: model={a[:200]!r} impl={b[:200]!r}"
+            scale = max([abs(x) for x in m[:len(FUNCS)] if x == x and abs(x) != math.inf] or [0.0])
             for k, f in enumerate(FUNCS):
                 if not same(m[k], p[k]):
+                    # The model mirrors the code's operation order, so the two normally agree bit for bit.  A deviation in the
+                    # last digits (<= 8 ulp of the tensor's magnitude: what a reordered sum or an equivalent respelling of the
+                    # arithmetic produces) is counted in the evidence and is no disagreement: every statement of C17 is about
+                    # real numbers, and the defects the bit-exact comparison found (cancellation in the expanded Mises polynomial,
+                    # int64 wrap-around) deviate by >= 1e-9 of the magnitude.
+                    if m[k] == m[k] and p[k] == p[k] and abs(m[k] - p[k]) <= LAST_DIGITS * max(abs(m[k]), abs(p[k]), scale):
+                        self.stats["last_digit_deviations"] = self.stats.get("last_digit_deviations", 0) + 1
+                        continue
                     path = labels[i] if i < len(labels) else "?"
                     note = ""
                     if f.endswith("mises") or "mises" in f:
